@@ -22,7 +22,7 @@ except AttributeError:
     pass
 VERIF = os.path.dirname(os.path.dirname(os.path.abspath(__file__)))
 REPLAY_DIR = os.path.join(VERIF, "replays")
-EVID_DIR = os.path.join(VERIF, "evidence")
+EVID_DIR = os.environ.get("VERIF_EVIDENCE_DIR") or os.path.join(VERIF, "evidence")  # override only used when evaluating seeded changes
 KNOWN = os.path.join(VERIF, "known_findings.json")
 
 EXIT_OK, EXIT_VIOLATION, EXIT_INCONCLUSIVE, EXIT_REPRODUCED = 0, 1, 2, 10
@@ -410,6 +410,63 @@ def match_known(known, prop, key):
     return None
 
 
+def _child(d, conn):
+    try:
+        conn.send(run_instance(d))
+    except BaseException as e:  # noqa: BLE001 - the parent must always get an answer
+        conn.send(_dead_result(d, "worker failed: %r" % (e,)))
+    finally:
+        conn.close()
+
+
+def _dead_result(d, why):
+    return {"name": d["name"], "prop": d["prop"], "harness": d["harness"], "params": d["params"], "uf": d.get("uf"),
+            "errors": [why], "findings": [], "unreproduced": [], "bound_hit": False, "stats": {}, "checks": {}}
+
+
+HARD_GRACE = int(os.environ.get("VERIF_HARD_GRACE", "120"))  # seconds past an instance's own wall-clock budget before the parent kills its process
+
+
+def _run_parallel(dicts, jobs):
+    """One fresh process per instance (deterministic solver state), at most ``jobs`` at a time.  The instance's own SIGALRM budget
+    only fires between Python bytecodes; a single solver call without a cancellation point (z3's simplex on huge rationals has
+    none: neither rlimit nor timeout stop it) is ended by the parent, and the instance is reported as inconclusive."""
+    import multiprocessing as mp
+    from multiprocessing.connection import wait
+
+    ctxm = mp.get_context("spawn")
+    pending, running, results = list(dicts), [], []
+    default = int(os.environ.get("VERIF_INSTANCE_LIMIT", "900"))
+    while pending or running:
+        while pending and len(running) < jobs:
+            d = pending.pop(0)
+            rx, tx = ctxm.Pipe(duplex=False)
+            pr = ctxm.Process(target=_child, args=(d, tx), daemon=True)
+            pr.start()
+            tx.close()
+            running.append((pr, rx, d, time.time(), int(d.get("time_limit") or default) + HARD_GRACE))
+        ready = set(wait([r[1] for r in running], timeout=1.0))
+        still = []
+        for pr, rx, d, t0, lim in running:
+            if rx in ready:
+                try:
+                    results.append(rx.recv())
+                except (EOFError, OSError):
+                    results.append(_dead_result(d, "worker died without a result (exit code %r)" % (pr.exitcode,)))
+                rx.close()
+                pr.join(5)
+            elif time.time() - t0 > lim:
+                pr.kill()
+                pr.join(5)
+                rx.close()
+                results.append(_dead_result(d, "TimeoutError: killed after %ds: a solver call did not return within the instance's budget "
+                                               "(no cancellation point)" % int(time.time() - t0)))
+            else:
+                still.append((pr, rx, d, t0, lim))
+        running = still
+    return results
+
+
 def run_property(prop, tier, instances, meta, seed=0, jobs=None):
     """Run all instances (process pool), print the verdict lines, write the evidence, return exit code."""
     import multiprocessing as mp
@@ -423,10 +480,7 @@ def run_property(prop, tier, instances, meta, seed=0, jobs=None):
         for d in dicts:
             results.append(run_instance(d))
     else:
-        ctxm = mp.get_context("spawn")
-        with ctxm.Pool(min(jobs, len(dicts)), maxtasksperchild=1) as pool:
-            for r in pool.imap_unordered(run_instance, dicts):
-                results.append(r)
+        results = _run_parallel(dicts, min(jobs, len(dicts)))
     results.sort(key=lambda r: r["name"])
     known = load_known()
     violations, known_hit, inconclusive = [], {}, []
